@@ -16,11 +16,10 @@ EXTENDS Mon_Headers, TLC
 CONSTANTS KeyNames, Values,   \* names / values used as operation arguments
           ValLists,        \* value lists for set_all
           InsIdx,          \* indices for insert
-          Inits,           \* set of initial field lists
-          ProbeKeys,       \* sequence of names looked up in every probe
-          MaxOps
-VARIABLES given, pc, fields, hasother, other, ops, mon, obs
-vars == <<given, pc, fields, hasother, other, ops, mon, obs>>
+          Inits,           \* set of <<initial field list, number of operations explored from it>>
+          ProbeKeys        \* sequence of names looked up in every probe
+VARIABLES given, maxops, pc, fields, hasother, other, ops, mon, obs
+vars == <<given, maxops, pc, fields, hasother, other, ops, mon, obs>>
 
 Live == mon.bad = <<>>
 Emit(evs) == obs' = evs /\ mon' = FoldEvents(MonStep, mon, evs)
@@ -47,15 +46,16 @@ Mut(op, key, vals, idx, exc, res, dflt, rkey, after) ==
   [k |-> "mut", op |-> op, key |-> key, vals |-> vals, idx |-> idx, exc |-> exc, res |-> res, dflt |-> dflt,
    rkey |-> rkey, after |-> after]
 
-Init == /\ given \in Inits /\ pc = "new" /\ fields = <<>> /\ hasother = FALSE /\ other = <<>> /\ ops = 0
+Init == /\ \E it \in Inits : given = it[1] /\ maxops = it[2]
+        /\ pc = "new" /\ fields = <<>> /\ hasother = FALSE /\ other = <<>> /\ ops = 0
         /\ mon = MonInit /\ obs = <<>>
 
 Construct == /\ Live /\ pc = "new"
-             /\ pc' = "run" /\ fields' = given /\ UNCHANGED <<given, hasother, other, ops>>
+             /\ pc' = "run" /\ fields' = given /\ UNCHANGED <<given, maxops, hasother, other, ops>>
              /\ Emit(<<[k |-> "init", given |-> given, fields |-> given], Probe(given, FALSE, <<>>)>>)
 
-Step(f2, ev) == /\ Live /\ pc = "run" /\ ops < MaxOps
-                /\ ops' = ops + 1 /\ fields' = f2 /\ UNCHANGED <<given, pc, hasother, other>>
+Can == Live /\ pc = "run" /\ ops < maxops
+Step(f2, ev) == /\ ops' = ops + 1 /\ fields' = f2 /\ UNCHANGED <<given, maxops, pc, hasother, other>>
                 /\ Emit(<<ev, Probe(f2, hasother, other)>>)
 
 RECURSIVE SA(_, _, _, _)
@@ -68,37 +68,65 @@ SA(fs, kc, vs, key) ==
 Ins(f, i, key, v) == SubSeq(f, 1, Min2(i, Len(f))) \o <<<<key, v>>>> \o SubSeq(f, Min2(i, Len(f)) + 1, Len(f))
 Present(key) == Sel(fields, KC(key)) # <<>>
 
-SetItem(key, v) == LET f2 == SA(fields, KC(key), <<v>>, key)
-                   IN Step(f2, Mut("setitem", key, <<v>>, 0, "", <<>>, FALSE, NoName, f2))
-SetAll(key, vs) == LET f2 == SA(fields, KC(key), vs, key)
-                   IN Step(f2, Mut("set_all", key, vs, 0, "", <<>>, FALSE, NoName, f2))
-Add(key, v) == LET f2 == Ins(fields, Len(fields), key, v)
-               IN Step(f2, Mut("add", key, <<v>>, 0, "", <<>>, FALSE, NoName, f2))
-Insert(i, key, v) == LET f2 == Ins(fields, i, key, v)
-                     IN Step(f2, Mut("insert", key, <<v>>, i, "", <<>>, FALSE, NoName, f2))
-DelItem(key) == IF Present(key)
-                THEN LET f2 == Unt(fields, KC(key)) IN Step(f2, Mut("delitem", key, <<>>, 0, "", <<>>, FALSE, NoName, f2))
-                ELSE Step(fields, Mut("delitem", key, <<>>, 0, "KeyError", <<>>, FALSE, NoName, fields))
-Pop(key) == IF Present(key)
-            THEN LET f2 == Unt(fields, KC(key))
-                 IN Step(f2, Mut("pop", key, <<>>, 0, "", Vals(Sel(fields, KC(key))), FALSE, NoName, f2))
-            ELSE Step(fields, Mut("pop", key, <<>>, 0, "KeyError", <<>>, FALSE, NoName, fields))
-PopDefault(key) == IF Present(key)
-                   THEN LET f2 == Unt(fields, KC(key))
-                        IN Step(f2, Mut("pop_default", key, <<>>, 0, "", Vals(Sel(fields, KC(key))), FALSE, NoName, f2))
-                   ELSE Step(fields, Mut("pop_default", key, <<>>, 0, "", <<>>, TRUE, NoName, fields))
-SetDefault(key, v) == IF Present(key)
-                      THEN Step(fields, Mut("setdefault", key, <<v>>, 0, "", Vals(Sel(fields, KC(key))), FALSE, NoName, fields))
-                      ELSE LET f2 == SA(fields, KC(key), <<v>>, key)
-                           IN Step(f2, Mut("setdefault", key, <<v>>, 0, "", <<v>>, FALSE, NoName, f2))
-Clear == Step(<<>>, Mut("clear", NoName, <<>>, 0, "", <<>>, FALSE, NoName, <<>>))
-PopItem == IF fields = <<>>
-           THEN Step(fields, Mut("popitem", NoName, <<>>, 0, "KeyError", <<>>, FALSE, NoName, fields))
-           ELSE LET key == fields[1][1]
-                    f2 == Unt(fields, KC(key))
-                IN Step(f2, Mut("popitem", NoName, <<>>, 0, "", Vals(Sel(fields, KC(key))), FALSE, key, f2))
-Copy(via) == /\ Live /\ pc = "run" /\ ops < MaxOps
-             /\ ops' = ops + 1 /\ hasother' = TRUE /\ other' = fields /\ UNCHANGED <<given, pc, fields>>
+\* __setitem__ = set_all(key, [value])
+SetItem(key, v) ==
+  /\ Can
+  /\ LET f2 == SA(fields, KC(key), <<v>>, key)
+     IN Step(f2, Mut("setitem", key, <<v>>, 0, "", <<>>, FALSE, NoName, f2))
+SetAll(key, vs) ==
+  /\ Can
+  /\ LET f2 == SA(fields, KC(key), vs, key)
+     IN Step(f2, Mut("set_all", key, vs, 0, "", <<>>, FALSE, NoName, f2))
+\* add = insert(len(fields), ...)
+Add(key, v) ==
+  /\ Can
+  /\ LET f2 == Ins(fields, Len(fields), key, v)
+     IN Step(f2, Mut("add", key, <<v>>, 0, "", <<>>, FALSE, NoName, f2))
+Insert(i, key, v) ==
+  /\ Can
+  /\ LET f2 == Ins(fields, i, key, v)
+     IN Step(f2, Mut("insert", key, <<v>>, i, "", <<>>, FALSE, NoName, f2))
+\* __delitem__: KeyError unless `key in self`
+DelItem(key) ==
+  /\ Can
+  /\ IF Present(key)
+     THEN LET f2 == Unt(fields, KC(key)) IN Step(f2, Mut("delitem", key, <<>>, 0, "", <<>>, FALSE, NoName, f2))
+     ELSE Step(fields, Mut("delitem", key, <<>>, 0, "KeyError", <<>>, FALSE, NoName, fields))
+\* MutableMapping.pop(key): value = self[key]; del self[key]
+Pop(key) ==
+  /\ Can
+  /\ IF Present(key)
+     THEN LET f2 == Unt(fields, KC(key))
+          IN Step(f2, Mut("pop", key, <<>>, 0, "", Vals(Sel(fields, KC(key))), FALSE, NoName, f2))
+     ELSE Step(fields, Mut("pop", key, <<>>, 0, "KeyError", <<>>, FALSE, NoName, fields))
+PopDefault(key) ==
+  /\ Can
+  /\ IF Present(key)
+     THEN LET f2 == Unt(fields, KC(key))
+          IN Step(f2, Mut("pop_default", key, <<>>, 0, "", Vals(Sel(fields, KC(key))), FALSE, NoName, f2))
+     ELSE Step(fields, Mut("pop_default", key, <<>>, 0, "", <<>>, TRUE, NoName, fields))
+\* MutableMapping.setdefault: return self[key], or self[key] = default; return default
+SetDefault(key, v) ==
+  /\ Can
+  /\ IF Present(key)
+     THEN Step(fields, Mut("setdefault", key, <<v>>, 0, "", Vals(Sel(fields, KC(key))), FALSE, NoName, fields))
+     ELSE LET f2 == SA(fields, KC(key), <<v>>, key)
+          IN Step(f2, Mut("setdefault", key, <<v>>, 0, "", <<v>>, FALSE, NoName, f2))
+\* MutableMapping.clear: popitem until KeyError
+Clear ==
+  /\ Can
+  /\ Step(<<>>, Mut("clear", NoName, <<>>, 0, "", <<>>, FALSE, NoName, <<>>))
+\* MutableMapping.popitem: key = next(iter(self)); value = self[key]; del self[key]
+PopItem ==
+  /\ Can
+  /\ IF fields = <<>>
+     THEN Step(fields, Mut("popitem", NoName, <<>>, 0, "KeyError", <<>>, FALSE, NoName, fields))
+     ELSE LET key == fields[1][1]
+              f2 == Unt(fields, KC(key))
+          IN Step(f2, Mut("popitem", NoName, <<>>, 0, "", Vals(Sel(fields, KC(key))), FALSE, key, f2))
+\* Serializable.copy / from_state(get_state()) / Headers(fields): a second object with the same fields
+Copy(via) == /\ Can
+             /\ ops' = ops + 1 /\ hasother' = TRUE /\ other' = fields /\ UNCHANGED <<given, maxops, pc, fields>>
              /\ Emit(<<[k |-> "copy", via |-> via, res |-> fields], Probe(fields, TRUE, fields)>>)
 
 Next == \/ Construct
